@@ -927,6 +927,21 @@ func (p *parser) trySkipTypeScriptArrowReturnTypeWithBacktracking() bool {
 // "trySkipTypeScriptArrowReturnTypeWithBacktracking" because it's much more
 // expensive, and likely not as robust.
 func (originalParser *parser) isTypeScriptArrowReturnTypeAfterQuestionAndBeforeColon(await awaitOrYield) bool {
+	// The answer only depends on the position in the file (and on a few flags),
+	// so remember it. Otherwise nested occurrences of this edge case would take
+	// exponential time, because the temporary parser below re-runs this check
+	// for every occurrence inside the arrow function body.
+	memoKey := tsArrowReturnTypeMemoKey{start: originalParser.lexer.Loc().Start, await: await, allowIn: originalParser.allowIn}
+	if originalParser.tsArrowReturnTypeMemo == nil {
+		originalParser.tsArrowReturnTypeMemo = make(map[tsArrowReturnTypeMemoKey]bool)
+	}
+	memo := originalParser.tsArrowReturnTypeMemo
+	if result, ok := memo[memoKey]; ok {
+		return result
+	}
+	succeeded := false
+	defer func() { memo[memoKey] = succeeded }()
+
 	// Implement "backtracking" by swallowing lexer errors on a temporary parser
 	defer func() {
 		r := recover()
@@ -980,6 +995,7 @@ func (originalParser *parser) isTypeScriptArrowReturnTypeAfterQuestionAndBeforeC
 
 	// Clone all state that the parser needs to parse this arrow function body
 	p.allowIn = originalParser.allowIn
+	p.tsArrowReturnTypeMemo = memo
 	p.lexer.IsLogDisabled = true
 	p.pushScopeForParsePass(js_ast.ScopeEntry, logger.Loc{Start: 0})
 	p.pushScopeForParsePass(js_ast.ScopeFunctionArgs, logger.Loc{Start: 1})
@@ -995,7 +1011,14 @@ func (originalParser *parser) isTypeScriptArrowReturnTypeAfterQuestionAndBeforeC
 	p.lexer.Expect(js_lexer.TColon)
 
 	// Parsing was successful if we get here
+	succeeded = true
 	return true
+}
+
+type tsArrowReturnTypeMemoKey struct {
+	start   int32
+	await   awaitOrYield
+	allowIn bool
 }
 
 func (p *parser) trySkipTypeScriptArrowArgsWithBacktracking() bool {
